@@ -83,6 +83,12 @@ CLAIMED = {
    design="5/C12",
    note="Trusted: LsColors.tla, TLC. Truncated/malformed extended colours are outside the statement (any non-panicking result accepted).",
    technique="TLA+ spec (LsColors) + TLC: exhaustive code-list enumeration replayed into the parser, recorded calls validated by TLC"),
+ "C13": dict(
+   level="model_checking",
+   text="StyleAlgebra.tla defines Effects as subsets of the twelve declared effects (bit i <-> i-th declared effect), Style as a record and the colour index arithmetic. The real operations are observed in batches - for every a in 0..4095 one event with insert, |, remove, -, set(true), set(false), contains against a family of b (quick: all b with <= 2 or >= 10 members plus 40 seeded; thorough: all 4096), iteration order, Debug names, is_plain, clear; style setter/getter independence, convenience methods, Style|Effects, Style-Effects, Style==Effects; AnsiColor <-> Ansi256[0..15] and the bright/normal projection for all 16 colours and 256 indices - and every event is validated by TLC against the set-theoretic definitions.",
+   design="5/C13",
+   note="Trusted: StyleAlgebra.tla (plain set theory), TLC. Effect sets are observed through contains(single effect), iter() and Debug, which must agree with each other and the model. Quick covers 198 b per a; thorough all 4096 x 4096.",
+   technique="TLA+ spec (StyleAlgebra) + TLC trace validation of batched exhaustive operation results"),
 }
 PENDING_REASON = "check not built yet in this revision of /verif (planned with the TLA+ specification, see DESIGN.md section 5); not claimed until its quick command exists"
 
